@@ -56,6 +56,50 @@ pub fn stress(path: &str) {
     let sequential = Arc::new(sequential);
     let threads = 16;
     let rounds = 40;
+    // phase 0: COLD contexts. Each of many fresh clones of the context is shared by all threads, which evaluate DIFFERENT
+    // trees on it at the same moment (its first evaluations ever), then the same trees once more sequentially.
+    let mut nbad0 = 0usize;
+    {
+        let n = trees.len();
+        let picks: Vec<usize> = (0..n).filter(|i| trees[*i].2.len() < 60).collect();
+        let fresh: Vec<Arc<HashMapContext<DefaultNumericTypes>>> = (0..150).map(|_| Arc::new((*ctx).clone())).collect();
+        let fresh = Arc::new(fresh);
+        let picks = Arc::new(picks);
+        let barrier = Arc::new(std::sync::Barrier::new(threads));
+        let mut handles = vec![];
+        for t in 0..threads {
+            let (trees, fresh, sequential, barrier, picks) = (trees.clone(), fresh.clone(), sequential.clone(), barrier.clone(), picks.clone());
+            handles.push(std::thread::spawn(move || {
+                let mut bad = vec![];
+                for (r, c) in fresh.iter().enumerate() {
+                    let i = picks[(r * 31 + t * 7) % picks.len()];
+                    barrier.wait();
+                    let got = crate::canon::result_text(&trees[i].1.eval_with_context(&**c));
+                    if got != sequential[i] {
+                        bad.push(format!("{}\t{}\t{}", trees[i].0, sequential[i], got));
+                    }
+                }
+                bad
+            }));
+        }
+        for h in handles {
+            for b in h.join().unwrap().into_iter().take(3) {
+                println!("MISMATCH\t{}", b);
+                nbad0 += 1;
+            }
+        }
+        // the contexts used concurrently must still answer as a fresh one does
+        for (r, c) in fresh.iter().enumerate() {
+            for t in 0..threads {
+                let i = picks[(r * 31 + t * 7) % picks.len()];
+                let got = crate::canon::result_text(&trees[i].1.eval_with_context(&**c));
+                if got != sequential[i] && nbad0 < 6 {
+                    println!("MISMATCH\t{}\t{}\t{} (sequentially, after concurrent first use)", trees[i].0, sequential[i], got);
+                    nbad0 += 1;
+                }
+            }
+        }
+    }
     // all threads evaluate the SAME tree at the same time (barrier per tree), `rounds` times each
     let barrier = Arc::new(std::sync::Barrier::new(threads));
     let mut handles = vec![];
@@ -76,7 +120,7 @@ pub fn stress(path: &str) {
             bad
         }));
     }
-    let mut nbad = 0;
+    let mut nbad = nbad0;
     for h in handles {
         for b in h.join().unwrap() {
             println!("MISMATCH\t{}", b);
